@@ -3,6 +3,9 @@ package worlds
 import (
 	"bytes"
 	"fmt"
+	"go.minekube.com/gate/pkg/edition/java/profile"
+	"go.minekube.com/gate/pkg/edition/java/proto/packet/tablist/playerinfo"
+	itab "go.minekube.com/gate/pkg/internal/tablist"
 	"strings"
 	"time"
 
@@ -39,7 +42,7 @@ func init() {
 func runC07(r *Run) {
 	prots := []gproto.Protocol{version.Minecraft_1_8.Protocol, version.Minecraft_1_12_2.Protocol, version.Minecraft_1_13.Protocol, version.Minecraft_1_15.Protocol,
 		version.Minecraft_1_18_2.Protocol, version.Minecraft_1_19.Protocol, version.Minecraft_1_19_1.Protocol, version.Minecraft_1_19_3.Protocol, version.Minecraft_1_19_4.Protocol,
-		version.Minecraft_1_20_2.Protocol, version.Minecraft_1_20_3.Protocol, version.Minecraft_1_20_5.Protocol, version.Minecraft_1_21.Protocol, version.Minecraft_1_21_4.Protocol, version.Minecraft_1_12_1.Protocol}
+		version.Minecraft_1_20_2.Protocol, version.Minecraft_1_20_3.Protocol, version.Minecraft_1_20_5.Protocol, version.Minecraft_1_21.Protocol, version.Minecraft_1_21_4.Protocol, version.Minecraft_1_12_1.Protocol, version.Minecraft_1_21_2.Protocol, version.Minecraft_1_16_4.Protocol, version.Minecraft_1_17.Protocol}
 	prot := prots[r.W.Pick(len(prots))]
 	w := newClassic(r, []string{"lobby"}, func(cfg *config.Config) { cfg.ForceKeyAuthentication = false })
 	proxyEvents(w)
@@ -96,6 +99,7 @@ func runC07(r *Run) {
 		backendDone = true
 	}
 	apiDone := false
+	tabAdded := false
 	var cl *clientModel
 	cl = w.addClient(name, prot, func(c *clientModel) {
 		c.Host = host
@@ -121,6 +125,29 @@ func runC07(r *Run) {
 				r.Op("api-plugin-message-to-backend")
 				id, _ := message.ChannelIdentifierFrom(m.ch)
 				_ = cs.SendPluginMessage(id, m.data)
+			}
+		}
+		if prot.GreaterEqual(version.Minecraft_1_19_3) {
+			// player-info updates built from the tab-list API: a latency-only update first, then
+			// adds with different attribute sets
+			if root, ok := pl.TabList().(itab.InternalTabList); ok {
+				for i := 0; i < 3; i++ {
+					r.Op("api-tablist-add")
+					e := &itab.Entry{OwningTabList: root, EntryAttributes: itab.EntryAttributes{
+						Profile: profile.GameProfile{ID: tabUUID(40 + i), Name: fmt.Sprintf("tab%d", i)},
+						Latency: time.Duration(10+i) * time.Millisecond, GameMode: i, Listed: i != 1, ShowsHat: true,
+					}}
+					if i == 2 {
+						e.EntryAttributes.DisplayName = &component.Text{Content: "nick"}
+					}
+					_ = pl.TabList().Add(e)
+					if i == 0 {
+						if cur := pl.TabList().Entries()[tabUUID(40)]; cur != nil {
+							_ = cur.SetLatency(77 * time.Millisecond)
+						}
+					}
+				}
+				tabAdded = true
 			}
 		}
 		for i := 0; !backendDone && i < 200; i++ {
@@ -170,6 +197,7 @@ func runC07(r *Run) {
 	var gotKA []int64
 	var gotPM []pm
 	sawSuccess, sawDisconnect, sawTransfer := false, false, false
+	heldTab := map[[16]byte]*mcpeer.TabEntry{}
 	for _, rec := range cl.wire.Recv {
 		if r.Failed() {
 			return
@@ -221,6 +249,14 @@ func runC07(r *Run) {
 				if err != nil || !strings.Contains(txt, fmt.Sprintf("bye %s", strings.Fields(reason)[1])) || !strings.Contains(txt, "ünï") {
 					bad("disconnect", rec, "decoded json %q nbt % x err %v; the reason was %q", js, head40(nbt), err, reason)
 				}
+			case idOf(gproto.ClientBound, st, &playerinfo.Upsert{}):
+				if p >= mcpeer.P1_19_3 && st == state.Play {
+					acts, ents, err := mcpeer.DecodePlayerInfoUpdate(body(rec), p)
+					if err != nil {
+						bad("player-info-update", rec, "%v", err)
+					}
+					mcpeer.ApplyPlayerInfo(heldTab, acts, ents)
+				}
 			case idOf(gproto.ClientBound, st, &packet.Transfer{}):
 				if p >= mcpeer.P1_20_5 {
 					sawTransfer = true
@@ -259,6 +295,19 @@ func runC07(r *Run) {
 			}
 			r.Fail("proxy-built-packet-wrong", "plugin-message-value", "protocol %d: API sent plugin message #%d %q (%d bytes) to the player, an independent decoder reads %s", p, i, m.ch, len(m.data), got)
 			return
+		}
+	}
+	if tabAdded {
+		for i := 0; i < 3; i++ {
+			e := heldTab[[16]byte(tabUUID(40+i))]
+			wantLat := int32(10 + i)
+			if i == 0 {
+				wantLat = 77
+			}
+			if e == nil || e.Name != fmt.Sprintf("tab%d", i) || e.Latency != wantLat || e.GameMode != int32(i) || e.Listed != (i != 1) || e.HasDisplay != (i == 2) {
+				r.Fail("proxy-built-packet-wrong", "player-info-value", "protocol %d: tab-list entry %d added through the API (name tab%d, latency %d, game mode %d, listed %v, display name %v): an independent decoder holds %+v", p, i, i, wantLat, i, i != 1, i == 2, e)
+				return
+			}
 		}
 	}
 	if end == "disconnect" && !sawDisconnect {
